@@ -1026,7 +1026,9 @@ func (w *World) createArchetype(node *archNode, target Entity, forStorage bool) 
 // Returns all archetypes that match the given filter.
 func (w *World) getArchetypes(filter Filter) []*archetype {
 	if cached, ok := filter.(*CachedFilter); ok {
-		return w.filterCache.get(cached).Archetypes.pointers
+		// Return a copy: batch operations may retire archetypes while they iterate the result,
+		// which swap-removes them from the cache's own slice.
+		return append([]*archetype{}, w.filterCache.get(cached).Archetypes.pointers...)
 	}
 
 	arches := []*archetype{}
